@@ -72,6 +72,20 @@ def _parse(
     if isinstance(parsed, _Interval):
         if parsed.duration is not None:
             duration = parsed.duration
+            # Shift by the components as they are written, like
+            # start + duration does: a Duration carries whole days out of
+            # its time components ("PT36H" reads as 1 day and 12 hours)
+            # while the compiled parser reports them untouched
+            units = getattr(duration, "_signature", None) or {
+                "years": duration.years,
+                "months": duration.months,
+                "weeks": duration.weeks,
+                "days": duration.remaining_days,
+                "hours": duration.hours,
+                "minutes": duration.minutes,
+                "seconds": duration.remaining_seconds,
+                "microseconds": duration.microseconds,
+            }
 
             if parsed.start is not None:
                 dt = pendulum.instance(parsed.start, tz=options.get("tz", UTC))
@@ -79,14 +93,7 @@ def _parse(
                 return pendulum.interval(
                     dt,
                     dt.add(
-                        years=duration.years,
-                        months=duration.months,
-                        weeks=duration.weeks,
-                        days=duration.remaining_days,
-                        hours=duration.hours,
-                        minutes=duration.minutes,
-                        seconds=duration.remaining_seconds,
-                        microseconds=duration.microseconds,
+                        **units,
                     ),
                 )
 
@@ -96,14 +103,7 @@ def _parse(
 
             return pendulum.interval(
                 dt.subtract(
-                    years=duration.years,
-                    months=duration.months,
-                    weeks=duration.weeks,
-                    days=duration.remaining_days,
-                    hours=duration.hours,
-                    minutes=duration.minutes,
-                    seconds=duration.remaining_seconds,
-                    microseconds=duration.microseconds,
+                    **units,
                 ),
                 dt,
             )
